@@ -800,7 +800,11 @@ class Merger:
                 ).format(basename(sys.argv[0]))
             raise MergeException(ex_message, insert_at)
         else:
-            lhs_proc.set_value(insert_at, rhs)
+            if insert_at.is_root:
+                # A Scalar document has no parent through which to be set
+                self.data = rhs
+            else:
+                lhs_proc.set_value(insert_at, rhs)
             merge_performed = True
         return merge_performed
 
